@@ -75,7 +75,7 @@ type Queue struct {
 
 type Job struct {
 	Name      string `json:"name"`
-	Queue     int    `json:"queue"`
+	Queue     int    `json:"queue"` // 1-based index of the leaf queue; 0 = a queue that does not exist
 	Prio      int    `json:"prio"`
 	Preempt   int    `json:"preempt"` // 1 preemptible, 0 non-preemptible
 	Min       int    `json:"min"`
@@ -354,6 +354,15 @@ func BuildTopology(sc *Scenario) *kaiv1alpha1.Topology {
 	return t
 }
 
+// queueNameOf: queue index 0 = a queue that does not exist (the pod group of a deleted queue: the scheduler
+// keeps such pod groups in its snapshot and must leave them, and only them, alone)
+func queueNameOf(sc *Scenario, q int) string {
+	if q <= 0 || q > len(sc.Queues) {
+		return "no-such-queue"
+	}
+	return sc.Queues[q-1].Name
+}
+
 func PrioClassName(v int) string { return fmt.Sprintf("prio-%d", v) }
 
 func BuildPriorityClass(v int) *schedulingv1.PriorityClass {
@@ -374,7 +383,7 @@ func BuildPodGroup(sc *Scenario, j int, now time.Time) *enginev2alpha2.PodGroup 
 		},
 		Spec: enginev2alpha2.PodGroupSpec{
 			MinMember:         int32(job.Min),
-			Queue:             sc.Queues[job.Queue-1].Name,
+			Queue:             queueNameOf(sc, job.Queue),
 			PriorityClassName: PrioClassName(job.Prio),
 			Preemptibility:    pre,
 		},
